@@ -85,7 +85,7 @@ def cases(rng, budget, widx, nworkers, tier):
             yield {"none": True, "a": gen.rand_obj(rng, ka, small=sm()), "label": "none-operand", "ls": rng.getrandbits(30)}
             continue
         (a, b), label = gen.gen_pair(rng, ka, kb, small=sm())
-        yield C.maybe_hist({"a": a, "b": b, "label": label, "ls": rng.getrandbits(30)}, rng)
+        yield C.maybe_hist({"a": a, "b": b, "label": label, "ls": rng.getrandbits(30)}, rng, p=0.2)
 
 
 def _judge_none(case):
